@@ -211,6 +211,8 @@ def source_of(case, name):
             '    del rec["self"]\n'
             '    self.rec = rec\n'
             % (name, ', '.join(['self'] + ps), POISON, names, name, ', '.join(['self'] + ps)))
+  if case['kind'] == 'nest':
+    return nest_source(case, name)
   src = 'def %s(%s):\n  return dict(locals())\n' % (name, ', '.join(ps))
   if case.get('via') == 'subclass':
     # class X(pg.Functor) with annotated members and a zero-argument `_call` reading self.<member>
@@ -220,6 +222,39 @@ def source_of(case, name):
             '  def _call(self):\n'
             '    return dict(%s)\n' % (name, members or '  pass\n', body))
   return src
+
+
+def nest_source(case, name):
+  """Two class-based functors sharing member names. The outer one READS the members of the inner
+  one while it executes (`self.other.<m>`), CALLS it, reads again; optionally from a second thread."""
+  members = case['sig_in']['pos']
+  decl = ''.join('  %s: typing.Any%s\n' % (n, '' if d is None else ' = %d' % d) for n, d in members)
+  mine = ', '.join('%s=self.%s' % (n, n) for n, _ in members)
+  names = [n for n, _ in members]
+  ref_in = ', '.join('%s%s' % (n, '' if d is None else '=%d' % d) for n, d in members)
+  return (
+      'def %(N)s_in_ref(%(ref_in)s):\n  return dict(locals())\n'
+      'def %(N)s(other%(comma)s%(ref_in)s):\n  return dict(locals())\n'
+      'class %(N)s_in(pg.Functor):\n%(decl)s'
+      '  def _call(self):\n'
+      '    return dict(%(mine)s)\n'
+      'class %(N)s_out(pg.Functor):\n'
+      '  other: typing.Any\n%(decl)s'
+      '  def _call(self):\n'
+      '    ctx = NEST_CTX\n'
+      '    o = self.other\n'
+      '    r = {}\n'
+      '    r["read"] = ctx["snap"](o, %(names)r)\n'
+      '    r["mine"] = dict(%(mine)s%(comma2)sother=self.other)\n'
+      '    r["called"] = ctx["run"](lambda: o(*ctx["a"], **ctx["k"]))\n'
+      '    r["read_after"] = ctx["snap"](o, %(names)r)\n'
+      '    r["mine_after"] = dict(%(mine)s%(comma2)sother=self.other)\n'
+      '    if ctx["thread"]:\n'
+      '      r["thread_read_self"] = ctx["in_thread"](lambda: ctx["snap"](self, %(names_o)r))\n'
+      '      r["thread_read_inner"] = ctx["in_thread"](lambda: ctx["snap"](o, %(names)r))\n'
+      '      r["thread_called"] = ctx["in_thread"](lambda: ctx["run"](lambda: o(*ctx["a"], **ctx["k"])))\n'
+      '    return r\n' % dict(N=name, ref_in=ref_in, comma=', ' if members else '', decl=decl, mine=mine,
+                              comma2=', ' if members else '', names=names, names_o=['other'] + names))
 
 
 _COUNTER = [0]
@@ -249,6 +284,7 @@ def gen_module():
 # Argument values cross the protocol as ints. Codes <= 0 stand for the falsy Python values; the
 # model treats all of them as opaque scalars.
 SPECIALS = {-1: None, -2: '', -3: False, -4: []}
+INNER = 99      # wire code of `the inner functor object` in nest cases
 
 
 def dec(v):
@@ -268,6 +304,8 @@ def enc(v):
     return -2
   if isinstance(v, (list, tuple)) and len(v) == 0:
     return -4
+  if hasattr(v, 'sym_init_args') and hasattr(v, 'specified_args'):
+    return INNER      # a functor object used as an argument value (nest cases)
   if isinstance(v, bool) or not isinstance(v, int):
     return '<%s>' % type(v).__name__
   return v
@@ -526,7 +564,9 @@ class C18(Prop):
     return c1, c2
 
   def gen_case(self, rng, sig=None):
-    kind = rng.weighted([(22, 'cls'), (10, 'hist'), (68, 'functor')])
+    kind = rng.weighted([(22, 'cls'), (10, 'hist'), (8, 'nest'), (60, 'functor')])
+    if kind == 'nest':
+      return self.gen_nest(rng)
     ann = rng.chance(0.3)
     auto_typing = ann and rng.chance(0.5)
     via = 'symbolize'
@@ -633,6 +673,45 @@ class C18(Prop):
       # a clone of the functor is re-bound before the original is called: must not affect the original
       case['clone_upd'] = [[n, self.val(rng)] for n in rng.sample(sig_names(sig), rng.randint(1, min(2, len(sig_names(sig)))))]
     return case
+
+  def gen_nest(self, rng):
+    """Class-based functors nested as members of other class-based functors, sharing parameter names."""
+    self.set_pool(rng, specials=True)
+    n = rng.randint(1, 3)
+    ndef = rng.randint(0, n)
+    members = [[POS_NAMES[i], self.dflt(rng) if i >= n - ndef else None] for i in range(n)]
+    sig_in = {'pos': members, 'varargs': None, 'kwonly': [], 'varkw': None}
+    sig = {'pos': [['other', None]] + members, 'varargs': None, 'kwonly': [], 'varkw': None}
+    def part(sg, p):
+      c = self.gen_valid_call(rng, sg, partial=p)
+      return {'args': c['args'], 'kwargs': dedupe(c['kwargs'])}
+    ic1, ic2 = part(sig_in, 0.4), part(sig_in, 0.5)
+    oc1, oc2 = part(sig_in, 0.3), part(sig_in, 0.5)     # `other` is placed below
+    if len(oc1['args']) == n + 0 and False:
+      pass
+    where = rng.weighted([(5, 'construct'), (2, 'late'), (3, 'call')])
+    late = []
+    def place(c, here):
+      # `other` is the first positional parameter of the outer functor
+      if here and rng.chance(0.5):
+        return {'args': [INNER] + c['args'], 'kwargs': c['kwargs']}
+      names = [m[0] for m in members]
+      kws = [[names[i], v] for i, v in enumerate(c['args'])] + c['kwargs']
+      return {'args': [], 'kwargs': ([['other', INNER]] if here else []) + kws}
+    oc1 = place(oc1, where == 'construct')
+    oc2 = place(oc2, where == 'call')
+    if where == 'late':
+      late = [{'op': 'rebind', 'upd': [['other', INNER]], 'via': rng.choice(['rebind', 'setattr'])}]
+    def flags(c1, c2):
+      ov = rng.below(4)
+      c1 = dict(c1, override=(ov == 0), ignore=False)
+      c2 = dict(c2, override=(True if ov == 1 else None), ignore=None)
+      return c1, c2
+    ic1, ic2 = flags(ic1, ic2)
+    oc1, oc2 = flags(oc1, oc2)
+    return {'kind': 'nest', 'via': 'subclass', 'ann': False, 'auto_typing': False, 'mode': 'nested',
+            'sig': sig, 'sig_in': sig_in, 'c1': oc1, 'c2': oc2, 'in_c1': ic1, 'in_c2': ic2,
+            'late': late, 'thread': rng.chance(0.5)}
 
   def gen_late(self, rng, case):
     """Late binding on the functor object between construction and call: rebind / setattr of named
@@ -753,6 +832,9 @@ class C18(Prop):
   # -- execution --------------------------------------------------------------------------
 
   def model_request(self, case):
+    if case['kind'] == 'nest':
+      return {'kind': 'nest', 'sig': case['sig'], 'sig_in': case['sig_in'], 'c1': case['c1'], 'c2': case['c2'],
+              'in_c1': case['in_c1'], 'in_c2': case['in_c2'], 'late': case.get('late', [])}
     req = {'kind': case['kind'], 'sig': case['sig'], 'c1': case['c1'], 'fix29': True}
     if case['kind'] == 'functor':
       req['c2'] = case['c2']
@@ -794,6 +876,8 @@ class C18(Prop):
 
     if case['kind'] == 'hist':
       return self.impl_hist(case, pg, mod, name, plain, obs)
+    if case['kind'] == 'nest':
+      return self.impl_nest(case, pg, mod, name, obs)
 
     model['py_c1'] = direct(a1, k1)
 
@@ -925,6 +1009,108 @@ class C18(Prop):
     model['clone_call'] = obs['clone_call']
     return {'model': model, 'obs': obs}
 
+  def impl_nest(self, case, pg, mod, name, obs):
+    import threading
+    missing = pg.MISSING_VALUE
+    sig, sig_in = case['sig'], case['sig_in']
+    In, Out = mod.__dict__[name + '_in'], mod.__dict__[name + '_out']
+    in_ref, out_ref = mod.__dict__[name + '_in_ref'], mod.__dict__[name]
+    model = {}
+    holder = {}
+
+    def val(v):
+      return holder['inner'] if v == INNER else dec(v)
+
+    def mk(cls, c, sg):
+      k = {a: val(b) for a, b in c['kwargs']}
+      if c.get('override'):
+        k['override_args'] = True
+      return cls(*[val(v) for v in c['args']], **k)
+
+    def snap(o, names):
+      out = []
+      for n in names:
+        v = getattr(o, n)
+        out.append([n, 'MISSING' if (isinstance(v, type(missing)) and v == missing) else enc(v)])
+      return out
+
+    def run(thunk, sg=sig_in):
+      return outcome(thunk, sg)
+
+    def in_thread(thunk):
+      box = {}
+      def body():
+        try:
+          box['v'] = thunk()
+        except Exception as e:   # pylint: disable=broad-except
+          box['v'] = {'err': 'in-thread:' + type(e).__name__}
+      th = threading.Thread(target=body)
+      th.start()
+      th.join(10)
+      return box.get('v', 'THREAD-TIMEOUT')
+
+    try:
+      holder['inner'] = mk(In, case['in_c1'], sig_in)
+      model['in_init'] = 'ok'
+    except Exception as e:   # pylint: disable=broad-except
+      model['in_init'] = type(e).__name__
+    if 'inner' not in holder:
+      holder['inner'] = In.partial()
+    inner = holder['inner']
+    try:
+      outer = mk(Out, case['c1'], sig)
+      model['out_init'] = 'ok'
+    except Exception as e:   # pylint: disable=broad-except
+      outer = None
+      model['out_init'] = type(e).__name__
+    if outer is None or model['in_init'] != 'ok':
+      if outer is None:
+        model.pop('in_init', None)
+      return {'model': model, 'obs': obs}
+    for op in case.get('late', []):
+      if op.get('via') == 'setattr':
+        setattr(outer, 'other', inner)
+      else:
+        outer.rebind(other=inner)
+    ic2, oc2 = case['in_c2'], case['c2']
+    ik = {a: val(b) for a, b in ic2['kwargs']}
+    if ic2.get('override') is not None:
+      ik['override_args'] = ic2['override']
+    ok = {a: val(b) for a, b in oc2['kwargs']}
+    if oc2.get('override') is not None:
+      ok['override_args'] = oc2['override']
+    mod.__dict__['NEST_CTX'] = {'snap': snap, 'run': run, 'in_thread': in_thread, 'thread': case.get('thread', False),
+                                'a': [val(v) for v in ic2['args']], 'k': ik}
+    inner_before = snap(inner, [n for n, _ in sig_in['pos']])
+    try:
+      r = outer(*[val(v) for v in oc2['args']], **ok)
+      res = {'mine': {'ok': canon_assignment(sig, r['mine'])}, 'read': r['read'], 'called': r['called']}
+      obs['read_after'] = r['read_after']
+      obs['mine_after'] = {'ok': canon_assignment(sig, r['mine_after'])}
+      if case.get('thread'):
+        res['thread_read_self'] = r['thread_read_self']
+        res['thread_read_inner'] = r['thread_read_inner']
+        obs['thread_called'] = r['thread_called']
+      model['call'] = {'ok': res}
+    except Exception as e:   # pylint: disable=broad-except
+      model['call'] = {'err': type(e).__name__}
+    # afterwards the inner functor still reports / uses its own arguments
+    obs['inner_before'] = inner_before
+    obs['inner_after'] = snap(inner, [n for n, _ in sig_in['pos']])
+    obs['inner_call_after'] = run(lambda: inner(*mod.__dict__['NEST_CTX']['a'], **ik))
+    # reference: the plain functions on the effective arguments
+    def ref(fn, sg, c1, c2, late=()):
+      e = effective(sg, c1, c2, False, late)
+      if e is None:
+        return {'err': 'TypeError'}, None
+      if e['conflict'] and not (c2['override'] if c2['override'] is not None else c1['override']):
+        return {'err': 'TypeError'}, e
+      return outcome(lambda: fn(*[val(v) for v in e['call']['args']],
+                                **{a: val(b) for a, b in e['call']['kwargs']}), sg), e
+    obs['ref_mine'], _ = ref(out_ref, sig, case['c1'], case['c2'], case.get('late', []))
+    obs['ref_called'], _ = ref(in_ref, sig_in, case['in_c1'], case['in_c2'])
+    return {'model': model, 'obs': obs}
+
   def impl_hist(self, case, pg, mod, name, plain, obs):
     missing = pg.MISSING_VALUE
     sig = case['sig']
@@ -993,6 +1179,8 @@ class C18(Prop):
   def compare(self, case, impl_out, model_out):
     a = impl_out['model']
     b = self.hist_prediction(model_out) if case['kind'] == 'hist' else dict(model_out)
+    if case['kind'] == 'nest' and isinstance(b.get('call'), dict) and 'ok' in b['call'] and not case.get('thread'):
+      b['call'] = {'ok': {k: v for k, v in b['call']['ok'].items() if not k.startswith('thread_')}}
     for k in ('specified', 'default', 'nondefault', 'json_specified', 'json_default', 'json_nondefault'):
       if k in b:
         b[k] = sorted(b[k])
@@ -1044,7 +1232,7 @@ class C18(Prop):
     if f:
       return f
     # Generated __init__ signature = signature of the original.
-    if obs['init_signature'] != obs['plain_signature']:
+    if 'init_signature' in obs and obs['init_signature'] != obs['plain_signature']:
       relaxed = [[n, 'POSITIONAL_OR_KEYWORD' if k == 'POSITIONAL_ONLY' else k, d, h]
                  for n, k, d, h in obs['plain_signature']]
       return {'signature': 'posonly-signature' if obs['init_signature'] == relaxed else 'generated-init-signature',
@@ -1064,6 +1252,8 @@ class C18(Prop):
 
     if case['kind'] == 'hist':
       return self._oracle_hist(case, out, n1)
+    if case['kind'] == 'nest':
+      return self._oracle_nest(case, out)
 
     if case['kind'] == 'cls':
       f = self._mismatch('direct-construction', m['py_c1'], m['direct'])
@@ -1144,6 +1334,51 @@ class C18(Prop):
       return None     # observation O1 (prebound *args silently replaced); the property does not fix it
     stage = 're-bound-then-call' if late else ('late-binding' if not (c1['args'] or c1['kwargs']) else 'two-stage')
     return self._mismatch(stage, m['py_eff'], m['call'])
+
+  def _oracle_nest(self, case, out):
+    """While the outer functor executes, the inner functor object keeps ITS arguments: reading its
+    members gives its bound arguments, calling it gives in_ref(*its effective arguments); the outer one
+    sees out_ref(*its effective arguments); another thread sees bound arguments only."""
+    m, obs = out['model'], out['obs']
+    if m.get('out_init') != 'ok' or m.get('in_init') != 'ok':
+      return None      # construction-time errors are covered by the functor cases
+    call = m['call']
+    if 'ref_mine' not in obs:
+      return None
+    if 'err' in call:
+      if obs['ref_mine'] != {'err': call['err']}:
+        return {'signature': 'nested:outer-call-raises:%s' % call['err'],
+                'what': 'the outer functor call raises %s, out_ref(*effective) gives %s' % (call['err'], obs['ref_mine'])}
+      return None
+    r = call['ok']
+    sig_in = case['sig_in']
+    n_in = name_args(sig_in, case['in_c1']['args'], case['in_c1']['kwargs'])
+    d = dict((k, v) for k, v in n_in[0])
+    bound_inner = [[n, d.get(n, dflt if dflt is not None else 'MISSING')] for n, dflt in sig_in['pos']]
+    if r['mine'] != obs['ref_mine']:
+      return {'signature': 'nested:outer-members', 'what': 'outer members during the call %s, out_ref(*effective) %s' % (r['mine'], obs['ref_mine'])}
+    for key, got in (('read', r['read']), ('read_after', obs['read_after']), ('inner_after', obs['inner_after']),
+                     ('thread_read_inner', r.get('thread_read_inner', bound_inner))):
+      if got != bound_inner:
+        return {'signature': 'nested:inner-members-leak:%s' % key,
+                'what': 'while the outer functor executes (%s), the inner functor object reads %s; its own bound arguments '
+                        'are %s' % (key, got, bound_inner)}
+    for key, got in (('called', r['called']), ('inner_call_after', obs['inner_call_after']),
+                     ('thread_called', obs.get('thread_called', obs['ref_called']))):
+      if got != obs['ref_called']:
+        return {'signature': 'nested:inner-call:%s' % key,
+                'what': 'calling the inner functor (%s) gives %s, in_ref(*effective) gives %s' % (key, got, obs['ref_called'])}
+    if obs['mine_after'] != obs['ref_mine']:
+      return {'signature': 'nested:outer-members-after-inner-call',
+              'what': 'after calling the inner functor the outer members read %s, expected %s' % (obs['mine_after'], obs['ref_mine'])}
+    if 'thread_read_self' in r:
+      n_out = apply_late(case['sig'], name_args(case['sig'], case['c1']['args'], case['c1']['kwargs']), case.get('late', []))
+      d = dict((k, v) for k, v in n_out[0])
+      bound_outer = [[n, d.get(n, dflt if dflt is not None else 'MISSING')] for n, dflt in case['sig']['pos']]
+      if r['thread_read_self'] != bound_outer:
+        return {'signature': 'nested:overrides-visible-in-other-thread',
+                'what': 'another thread reads %s from the executing functor; its bound arguments are %s' % (r['thread_read_self'], bound_outer)}
+    return None
 
   def _oracle_hist(self, case, out, n1):
     """After every step of construct -> rebind -> rebind ...: the wrapper either is in the state of
@@ -1254,7 +1489,8 @@ class C18(Prop):
       h.append('annotated%s' % ('+auto_typing' if case.get('auto_typing') else ''))
     if not case.get('tc_call', True):
       h.append('call-under-type-check-off')
-    h.append('py_c1:%s' % (m['py_c1'].get('kind') or 'ok'))
+    if 'py_c1' in m:
+      h.append('py_c1:%s' % (m['py_c1'].get('kind') or 'ok'))
     h.append('via:%s' % case.get('via'))
     vals = [v for c in [case['c1'], case.get('c2') or {'args': [], 'kwargs': []}]
             for v in list(c['args']) + [x for _, x in c['kwargs']]]
@@ -1269,6 +1505,14 @@ class C18(Prop):
       h.append('late-op:%s%s' % (op['op'], ':' + op['via'] if 'via' in op else ''))
       if op['op'] == 'rebind' and any(k not in sig_names(sig) for k, _ in op['upd']):
         h.append('late-op:wildcard-keyword')
+    if case['kind'] == 'nest':
+      h.append('nest:other-bound-at-%s' % ('late' if case.get('late') else ('call' if any(k == 'other' for k, _ in case['c2']['kwargs']) else 'construct')))
+      h.append('nest:thread=%s' % case.get('thread'))
+      if 'call' in m:
+        h.append('nest:call:%s' % (m['call'].get('err') or 'ok'))
+        if 'ok' in m['call']:
+          h.append('nest:inner-called:%s' % (m['call']['ok']['called'].get('err') or 'ok'))
+      return h
     if case['kind'] == 'hist':
       h.append('hist-init:%s' % m['init'])
       h.append('hist-steps:%d' % len(m['steps']))
